@@ -314,6 +314,12 @@ func runC16(tr *Trace, sc *Script, rec *Recorder, scratch string) *Violation {
 				examined = r[1]
 			}
 		}
+		// the tip the downloader was told about: it will treat everything up to it as examined
+		if label == "dl" && method == "HeaderByNumber" && desc == "latest" && mode == replyOK {
+			if b, ok := result.(*FBlock); ok && b.Num() > examined {
+				examined = b.Num()
+			}
+		}
 	}
 	classify := func(v *Violation) *Violation {
 		if v == nil || v.Oracle == "harness" {
